@@ -37,6 +37,7 @@ def provFlow : List (String × String) := [
   ("invokeAddrExpr", "for && !ok => break"),
   ("invokeAddrExpr", "for => operand = paren.SubExpr"),
   ("invokeAddrExpr", "_, isVariable := operand.(*ast.IdentExpr)"),
+  ("invokeAddrExpr", "operand.(type) in {*ast.TernaryOpExpr, *ast.NilCoalescingOpExpr} => isVariable = true"),
   ("invokeAddrExpr", "!isVariable && R.CanAddr() && !(R.Kind() == Interface && R.IsNil()) => R = R.Addr()"),
   ("invokeAddrExpr", "!(!isVariable && R.CanAddr() && !(R.Kind() == Interface && R.IsNil())) => i := R.Interface()"),
   ("invokeAddrExpr", "!(!isVariable && R.CanAddr() && !(R.Kind() == Interface && R.IsNil())) => R = ValueOf(&i)"),
